@@ -58,7 +58,9 @@ type WOp struct {
 }
 
 type Case struct {
-	Cap     int    `json:"cap"`
+	Cap     int    `json:"cap"`           // capacity the documentation promises for this relay (model: effective_cap Conf)
+	Conf    int    `json:"conf"`          // BufferSize as configured
+	Raw     bool   `json:"raw,omitempty"` // Conf handed to relay.Relay as it is (may be 0, negative, > 512)
 	Kind    string `json:"kind"`
 	Topic   string `json:"topic"`
 	Ops     []Op   `json:"ops"`
@@ -113,8 +115,12 @@ func main() {
 		var c Case
 		lib.ReadReplayCase(a.Replay, &c)
 		c.Seen, c.Witness, c.Discard = nil, nil, ""
-		groups[c.Cap] = []Case{c}
-		caps = []int{c.Cap}
+		id := c.Cap
+		if c.Raw {
+			id = 1000000
+		}
+		groups[id] = []Case{c}
+		caps = []int{id}
 	} else {
 		caps = []int{1, 2, 3, 8, 64, 128}
 		if a.Tier == "thorough" {
@@ -127,12 +133,31 @@ func main() {
 				groups[cp] = append(groups[cp], genScenario(r.Fork(), cp, i))
 			}
 		}
+		// relays configured with an out-of-range BufferSize: the documented fallback is 256
+		for j, conf := range []int{0, -5, 513, 100000} {
+			id := 1000000 + j
+			caps = append(caps, id)
+			r := rng.Fork()
+			for i := 0; i < a.Pick(4, 12); i++ {
+				kind := 3 // storm
+				if i%4 == 0 {
+					kind = -1 // burst to attentive readers
+				} else if i%4 == 1 {
+					kind = 1 // calm
+				} else if i%4 == 2 {
+					kind = -1
+				}
+				c := genScenarioKind(r.Fork(), documentedCap(conf), i, kind, fmt.Sprintf("c5-raw%d-%d", j, i))
+				c.Conf, c.Raw = conf, true
+				groups[id] = append(groups[id], c)
+			}
+		}
 	}
 
 	// one child per buffer size, a few at a time, each under a watchdog
 	outs := make([]*ChildOut, len(caps))
 	frozen := make([]string, len(caps))
-	sem := make(chan struct{}, 6)
+	sem := make(chan struct{}, 10)
 	var wg sync.WaitGroup
 	budget := time.Duration(a.Pick(150, 500)) * time.Second
 	for i, cp := range caps {
